@@ -145,15 +145,19 @@ def sweep_task(t):
             args = ("s", "a" * k)
         elif op == "checkscript":
             args = ("b" * k,)
+        elif op == "deletescript-escaped":
+            # the same sweep with characters that must be escaped inside a quoted string (its 1024-octet limit counts the unescaped text)
+            args = (('q"\\' + "n" * k)[:max(k, 1)],)
         else:
             args = ("n" * k,)
+        verb = op.split("-")[0]
         srv = refms.RefServer(store={"a": b"keep;\r\n"}, active="a", version=True)
         s = wire.open_session(srv)
         m = wire.mark(s)
-        o = s.call(op, *args)
+        o = s.call(verb, *args)
         data = wire.written_since(s, m)
         n += 1
-        bad = judge(op, list(args), data, o)
+        bad = judge(verb, list(args), data, o)
         if bad is None and srv.violations:
             bad = ("protocol-violation", srv.violations[0])
         if bad:
@@ -169,8 +173,8 @@ def run(tier, seed):
     res = pool.run_tasks("checks.c08:op_task", [(op, maxlen) for op in ops])
     top = 9000 if tier == "quick" else 70000
     sw = []
-    for op in ("putscript", "checkscript", "deletescript"):
-        for lo in range(0, top, 500):
+    for op in ("putscript", "checkscript", "deletescript", "deletescript-escaped"):
+        for lo in range(0, top if op != "deletescript-escaped" else 3000, 500):
             sw.append((op, lo, min(top, lo + 500)))
     res += pool.run_tasks("checks.c08:sweep_task", sw, chunksize=2)
     n = sum(r["n"] for r in res)
